@@ -171,26 +171,45 @@ theorem exportWordPiece_canonical (vocab : List (Id × Bytes))
 
 theorem export_canonical (d : Definition) (hc : Canonical d)
     (pv : List (Id × Bytes) → List (Id × Bytes)) (hpv : ∀ l, (pv l).Perm l)
-    (pvs : List ((Id × Bytes) × UInt32) → List ((Id × Bytes) × UInt32)) (hpvs : ∀ l, (pvs l).Perm l)
-    (ps : List SpecialDef → List SpecialDef) (hps : ∀ l, (ps l).Perm l) :
-    exportDefinition d pv pvs ps = .ok d := by
+    (pvs : List ((Id × Bytes) × UInt32) → List ((Id × Bytes) × UInt32)) (hpvs : ∀ l, (pvs l).Perm l) :
+    exportDefinition d pv pvs = .ok d := by
   obtain ⟨md, model, specials, config⟩ := d
-  have hsp : (ps specials).mergeSort specialLe = specials :=
-    mergeSort_eq_of_strictlySorted specialLe specialLe_refl specials _ hc.specials (hps _)
   have hm := hc.model
   cases model with
   | bytePair vocab chars =>
     simp only at hm
-    simp only [exportDefinition, hsp, exportBpe_canonical vocab hm _ (hpv _)]
+    simp only [exportDefinition, exportBpe_canonical vocab hm _ (hpv _)]
   | unigram vocab scores =>
     simp only at hm
     obtain ⟨hlen, hnan, hs⟩ := hm
-    simp only [exportDefinition, hsp, exportUnigram_canonical vocab scores hnan hs _ (hpvs _)]
+    simp only [exportDefinition, exportUnigram_canonical vocab scores hnan hs _ (hpvs _)]
     have h1 : (vocab.zip scores).map (·.1) = vocab := List.map_fst_zip (by omega)
     have h2 : (vocab.zip scores).map (·.2) = scores := List.map_snd_zip (by omega)
     rw [h1, h2]
   | wordPiece vocab maxw =>
     simp only at hm
-    simp only [exportDefinition, hsp, exportWordPiece_canonical vocab hm _ (hpv _)]
+    simp only [exportDefinition, exportWordPiece_canonical vocab hm _ (hpv _)]
+
+/-- Whatever the definition and the iteration orders: an export that succeeds returns the specials, the
+    configuration and the metadata of the definition the tokenizer was built from, specials in the listed order. -/
+theorem export_keeps_specials (d d' : Definition)
+    (pv : List (Id × Bytes) → List (Id × Bytes))
+    (pvs : List ((Id × Bytes) × UInt32) → List ((Id × Bytes) × UInt32))
+    (h : exportDefinition d pv pvs = .ok d') :
+    d'.specials = d.specials ∧ d'.config = d.config ∧ d'.metadata = d.metadata := by
+  obtain ⟨md, model, specials, config⟩ := d
+  cases model with
+  | bytePair vocab chars =>
+    simp only [exportDefinition] at h
+    injection h with h; subst h; exact ⟨rfl, rfl, rfl⟩
+  | unigram vocab scores =>
+    simp only [exportDefinition] at h
+    split at h
+    · injection h with h; subst h; exact ⟨rfl, rfl, rfl⟩
+    · cases h
+    · cases h
+  | wordPiece vocab maxw =>
+    simp only [exportDefinition] at h
+    injection h with h; subst h; exact ⟨rfl, rfl, rfl⟩
 
 end Kitoken.Proofs.Codec
